@@ -8,7 +8,7 @@ ROOT = os.path.dirname(os.path.dirname(os.path.abspath(__file__)))
 PROPS = {}
 
 
-def P(pid, technique, level_text, level_note, level="exploration", layers=(), bq=60, bt=600, min_distinct=2, **kw):
+def P(pid, technique, level_text, level_note, level="exploration", layers=(), bq=60, bt=300, min_distinct=2, **kw):
     PROPS[pid] = dict(level=level, technique=technique, level_text=level_text, level_note=level_note,
                       layers=list(layers), budget_quick=bq, budget_thorough=bt, min_distinct=min_distinct, **kw)
 
